@@ -187,6 +187,21 @@ func (te *tableEngine) batchAddPlayers(players []JoinPlayer) error {
 	playerSeatIDs := make(map[string]int)
 	playerRandomSeatIDs := make([]string, 0)
 
+	// validate the whole batch first: a refused batch must not seat anybody
+	if len(te.table.State.PlayerStates)+len(players) > te.table.Meta.TableMaxSeatCount {
+		return ErrTableNoEmptySeats
+	}
+	batchPlayerIDs := make(map[string]bool)
+	for _, p := range players {
+		if p.Seat != seat_manager.UnsetSeatID && (p.Seat < 0 || p.Seat >= te.table.Meta.TableMaxSeatCount) {
+			return ErrTablePlayerSeatUnavailable
+		}
+		if batchPlayerIDs[p.PlayerID] || te.table.FindPlayerIdx(p.PlayerID) != UnsetValue {
+			return ErrTablePlayerInvalidAction
+		}
+		batchPlayerIDs[p.PlayerID] = true
+	}
+
 	for _, p := range players {
 		if p.Seat == seat_manager.UnsetSeatID {
 			playerRandomSeatIDs = append(playerRandomSeatIDs, p.PlayerID)
